@@ -17,7 +17,9 @@ VERIF = os.path.dirname(HERE)
 
 def one(item):
     sid, (prop, rule) = item
-    p = os.path.join(VERIF, 'seeded', sid, 'patch.diff')
+    p = os.path.join(VERIF, 'seeded', sid, 'patch.rebased.diff')
+    if not os.path.exists(p):
+        p = os.path.join(VERIF, 'seeded', sid, 'patch.diff')
     if not os.path.exists(p):
         return sid, 'SKIP', 'no patch'
     tmp = tempfile.mkdtemp(prefix='nkseed-')
